@@ -133,6 +133,20 @@ func c15Pipeline(data []byte, dir string, params map[string]string) (stage strin
 	_ = md.Sign(hx.PoolKey("ed25519-1").Full())
 	stage = "VerifySignature after Sign"
 	_ = md.VerifySignature(hx.PoolKey("ed25519-1").Pub())
+	stage = "Sign with odd key objects"
+	// keys as a caller may hand them over: a certificate that belongs to another key (of the same or of
+	// another key type), a certificate that is none, a key without an id, material of another type
+	for i, pair := range [][2]string{{"ecdsa-p256-0", "rsa2048-0"}, {"ed25519-0", "ecdsa-p256-0"}, {"rsa2048-0", "ed25519-1"}, {"ecdsa-p256-1", "ecdsa-p256-0"}, {"ed25519-2", "ed25519-2"}} {
+		k := hx.PoolKey(pair[0]).Full()
+		k.KeyVal.Certificate = hx.SelfSignedPEM(hx.PoolKey(pair[1]))
+		if i == 3 {
+			k.KeyVal.Certificate = "-----BEGIN CERTIFICATE-----\nAAAA\n-----END CERTIFICATE-----\n"
+		}
+		_ = md.Sign(k)
+		_ = md.VerifySignature(k)
+		k.KeyID = ""
+		_ = md.Sign(k)
+	}
 	stage = "Dump"
 	_ = md.Dump(path + ".out")
 	_ = os.Remove(path + ".out")
@@ -305,7 +319,7 @@ var c15Degeneracies = []string{
 	"key-type-vs-material", "ed25519-short", "ed25519-nonhex", "key-garbage-pem", "rootca-garbage", "intermediate-garbage", "ca-entry-holds-key", "ca-entry-holds-key", "link-self-referential-sublayout", "empty-run", "name-glob", "name-separator", "name-dotdot",
 	"duplicate-step", "steps-null", "inspect-null", "keys-null", "expected-null", "huge-readme", "verifier-key-short", "verifier-key-mismatch", "step-and-inspection-same-name",
 	"link-garbage", "link-empty-object", "link-null-members", "link-bad-cert", "link-pubkey-as-cert", "link-unauthorised-sublayout", "link-authorised-sublayout-no-dir",
-	"truncated-match-rule:5", "truncated-match-rule:7", "truncated-match-rule:9", "truncated-match-rule:10", "truncated-match-rule:11", "truncated-match-rule:3", "linkdir-is-workdir-fifo", "linkdir-is-workdir-symlink-to-fifo", "link-dir", "link-dangling-symlink", "link-fifo", "link-symlink-to-fifo", "link-symlink-to-dir", "link-wrong-shape", "link-materials-null", "link-name-mismatch", "link-sig-garbage", "link-many-sigs", "link-short-sig-first", "link-short-sig-first", "cert-only-layout", "cert-only-layout", "constraint-odd", "cert-link-odd-constraints", "cert-link-odd-constraints",
+	"truncated-match-rule:5", "truncated-match-rule:7", "truncated-match-rule:9", "truncated-match-rule:10", "truncated-match-rule:11", "truncated-match-rule:3", "linkdir-is-workdir-fifo", "linkdir-is-workdir-symlink-to-fifo", "link-dir", "link-dangling-symlink", "link-fifo", "link-symlink-to-fifo", "link-symlink-to-dir", "link-wrong-shape", "link-materials-null", "link-name-mismatch", "link-sig-garbage", "link-many-sigs", "many-garbage-links", "many-garbage-links", "link-short-sig-first", "link-short-sig-first", "cert-only-layout", "cert-only-layout", "constraint-odd", "cert-link-odd-constraints", "cert-link-odd-constraints",
 	"name-glob-shorter-match", "name-many-stars", "key-public-is-private", "key-private-is-public", "verifier-key-public-is-private",
 }
 
@@ -478,6 +492,11 @@ func c15Apply(w hx.World, kinds []string) hx.World {
 			lay.Inspect = append(lay.Inspect, hx.MInspection{Type: "inspection", Name: s0.Name, Run: []string{"@EMIT@", "x:0"}, ExpMat: [][]string{{"ALLOW", "*"}}, ExpProd: [][]string{{"ALLOW", "*"}}})
 		case "link-garbage":
 			links = append(links, hx.WMetaFile{Name: hostileName("11111111"), Raw: "\x00\x01garbage\xff"})
+		case "many-garbage-links":
+			// half a dozen files named like links of the step that are none (plus whatever else lies there)
+			for i, raw := range []string{"\x00\x01garbage\xff", "{", "[]", "{\"signed\": 1}", " ", "null", "{\"payloadType\": 1, \"payload\": 2, \"signatures\": 3}"} {
+				links = append(links, hx.WMetaFile{Name: hostileName(fmt.Sprintf("0000000%d", i)), Raw: raw})
+			}
 		case "link-empty-object":
 			links = append(links, hx.WMetaFile{Name: hostileName("22222222"), Raw: "{}"})
 		case "link-null-members":
@@ -740,7 +759,7 @@ func TestC15(t *testing.T) {
 	}
 	hx.Check[c15WorldCase]{
 		Property: "C15", Part: "worlds",
-		Rule:  "properly signed degenerate layouts and hostile link directories verified end to end in an isolated process (both entry points, both wrappers): 1-3 of 48 degeneracies (empty / one-token rules, thresholds <=0 or huge, steps without links, undefined or contradictory or malformed keys, garbage certificates, empty run, names with glob metacharacters / separators, duplicate and null collections, hostile verifier keys; garbage / wrong-shape / null-member link files, garbage or key-as-certificate entries, unauthorised and directory-less sublayouts, directories, dangling symlinks and FIFOs named like links); non-trivial = the layout loads and verification proper is reached; distinct by (degeneracies, wrapper, entry)",
+		Rule:  "properly signed degenerate layouts and hostile link directories verified end to end in an isolated process (both entry points, both wrappers): 1-3 of 49 degeneracies (empty / one-token rules, thresholds <=0 or huge, steps without links, undefined or contradictory or malformed keys, garbage certificates, empty run, names with glob metacharacters / separators, duplicate and null collections, hostile verifier keys; garbage / wrong-shape / null-member link files, garbage or key-as-certificate entries, unauthorised and directory-less sublayouts, directories, dangling symlinks and FIFOs named like links); non-trivial = the layout loads and verification proper is reached; distinct by (degeneracies, wrapper, entry)",
 		Cases: hx.Pick(250, 40000),
 		Gen:   c15GenWorld, Run: c15RunWorld,
 	}.Execute(t)
